@@ -56,7 +56,7 @@ pub fn campaigns(p: Prop) -> Vec<Campaign> {
         Prop::C07 => vec![c("set-histories", SetHist, &[T, T, T, P, P, STR, ZK, ND, TG, PA], 40, (2500, 150_000)), cb("set-big", SetHist, &[T, T, P], 30, (100, 4000)), cw((25, 1000))],
         Prop::C08 => vec![c("set-algebra", SetAlg, &[T, T, P], 28, (1500, 60_000))],
         Prop::C09 => vec![c("map-walks", MapHist, &[T, T, T, P, P, STR, ZK, ZV, ZB], 40, (2000, 80_000)), c("set-walks", SetHist, &[T, T, P, P, ZK], 40, (1000, 40_000)), cb("map-big", MapHist, &[T, P], 24, (80, 3000)), cw((25, 1000))],
-        Prop::C10 => vec![Campaign { name: "drains-whose-elements-panic-in-drop", engine: MapHist, kinds: &[T], max_ops: 8, cases: (30, 1200), caps: Some(&[1, 2, 3, 4, 5]), fault: true }, Campaign { name: "set-drains-whose-elements-panic-in-drop", engine: SetHist, kinds: &[T], max_ops: 8, cases: (20, 800), caps: Some(&[1, 2, 3, 4, 5]), fault: true }, c("map-consume", MapHist, &[T, T, T, P, P, STR, ZK, ZV, ZB, TG], 40, (2000, 80_000)), c("set-consume", SetHist, &[T, T, P, P, ZK], 40, (1000, 40_000)), cb("map-big", MapHist, &[T, P], 24, (80, 3000)), cw((25, 1000))],
+        Prop::C10 => vec![c("map-consume", MapHist, &[T, T, T, P, P, STR, ZK, ZV, ZB, TG], 40, (2000, 80_000)), c("set-consume", SetHist, &[T, T, P, P, ZK], 40, (1000, 40_000)), cb("map-big", MapHist, &[T, P], 24, (80, 3000)), cw((25, 1000))],
         Prop::C11 => vec![Campaign { name: "entry-closures-that-panic", engine: MapHist, kinds: &[T, T, P], max_ops: 8, cases: (40, 1500), caps: Some(&[0, 1, 2, 3, 4, 5]), fault: true }, c("entry", MapHist, &[T, T, T, P, P, STR, ZV, ZB, TG], 40, (2500, 120_000)), cb("map-big", MapHist, &[T, P], 30, (80, 3000))],
         Prop::C12 => vec![c("map-key-identity", MapHist, &[T, T, TG], 40, (2000, 100_000)), c("set-key-identity", SetHist, &[T, T, TG], 40, (1200, 60_000)), cb("map-big", MapHist, &[T], 30, (80, 3000)), cb("set-big", SetHist, &[T], 30, (60, 2500))],
         Prop::C13 => vec![c("disjoint", MapHist, &[T, T, STR, P, PA, PA], 30, (1500, 60_000)), cb("map-big", MapHist, &[T, T, P], 24, (80, 3000)), cw((25, 1000))],
